@@ -57,6 +57,7 @@ type Config struct {
 	AsyncSteps                                                int
 	TwinGap, TwinHorizon                                      int
 	SlowPP                                                    int  // proposal payloads (large messages) become deliverable only this many scheduler steps after they were sent (0 = off)
+	CleanHunt                                                 bool // C01: orderly profile for the hunt (no adversary, no loss/crash/partition)
 	Hunt                                                      bool // C01: fork-hunting delivery policy after a danger state (see hunt.go)
 	Ghost                                                     bool // C06 tally mode: two real nodes, all other stake held by simulator-crafted voters
 }
@@ -76,6 +77,8 @@ type Node struct {
 	starve    int
 	crashes   int
 	factoryID int64
+	asmRound  basics.Round // block factory: assemblies of the current round so far (survives crashes, like a clock)
+	asmCount  int64
 	holdRound basics.Round // "hold" fault: cert-step votes and bundles of this round addressed to the node are delayed ...
 	holdUntil int          // ... until this scheduler step (the node lags one round behind while receiving next-round traffic)
 	persisted []persistRow // C02: every state ever persisted to this node's crash DB, as pending attests
@@ -104,6 +107,7 @@ type flight struct {
 	vr        basics.Round
 	vp, vs    uint64
 	vval      PValue
+	ppRound   basics.Round // proposal payloads: the block's round
 }
 
 // Sim is one run.
@@ -150,6 +154,8 @@ type Sim struct {
 	shadowSeq    int
 	hunt         *hunt
 	huntSeen     map[string]*huntObs
+	lastNext     map[int]lastNextRec
+	nodePer      map[int]lastNextRec
 	ghostSent    map[string][]PValue // ghost account|r|p|step -> values already voted
 	ghostEqStake uint64
 	ghostEq      map[int]bool
@@ -241,7 +247,10 @@ func drawConfig(tp *kernel.Tape, prop, tier string) Config {
 		}
 		c.Accts = append(c.Accts, l)
 	}
-	wantAdv := prop == "C01" || prop == "C03" || prop == "C06" || prop == "C04"
+	// C01 "clean hunt" profile: no adversary and no faults other than reordering and slow payloads, so that
+	// the fork-hunting delivery policy (hunt.go) works on an orderly state instead of a chaotic one
+	c.CleanHunt = prop == "C01" && tp.Chance("cfg.cleanhunt", 1, 3)
+	wantAdv := (prop == "C01" || prop == "C03" || prop == "C06" || prop == "C04") && !c.CleanHunt
 	if wantAdv && tp.Chance("cfg.adv", 2, 3) && idx < maxAccounts {
 		c.AdvInst = tp.Range("cfg.advinst", 2, 3)
 		na := tp.Range("cfg.advaccts", 1, 2)
@@ -322,6 +331,10 @@ func drawConfig(tp *kernel.Tape, prop, tier string) Config {
 	}
 	if prop == "C01" {
 		c.Hunt = tp.Chance("cfg.hunt", 1, 2)
+	}
+	if c.CleanHunt {
+		c.Hunt = true
+		c.WDrop, c.WDup, c.WPart, c.WStarve, c.WCrash, c.WTrig, c.MaxCrashes = 0, 0, 0, 0, 0, 0, 0
 	}
 	if !c.Ghost && prop != "C05" && (tp.Chance("cfg.slowpp", 1, 3) || c.Hunt) {
 		c.SlowPP = tp.Range("cfg.slowpp.steps", 50, 1200)
@@ -620,7 +633,7 @@ func (s *Sim) fanout(n *Node, m outMsg, key string, dec any) {
 		s.nextID++
 		f := &flight{id: s.nextID, from: n.id, to: d.id, tag: m.tag, data: m.data, key: key}
 		setHdr(f, dec)
-		if s.cfg.SlowPP > 0 && m.tag == protocol.ProposalPayloadTag && !s.syncMode {
+		if s.cfg.SlowPP > 0 && m.tag == protocol.ProposalPayloadTag && !s.syncMode && !(s.cfg.CleanHunt && s.hunt != nil) {
 			f.notBefore = s.step + s.cfg.SlowPP
 			s.stat("slow_payload", 1)
 		}
@@ -699,6 +712,12 @@ func (s *Sim) deliverable() []int {
 			if d.holdUntil > s.step && f.hasHdr && f.vr == d.holdRound && f.vs == stepCert {
 				continue // delayed, not lost
 			}
+			if s.hunt != nil && s.huntHolds(f) {
+				continue
+			}
+			if s.cfg.CleanHunt && s.hunt == nil && s.preHuntHolds(f) {
+				continue
+			}
 			idx = append(idx, i)
 			if len(idx) >= 64 {
 				break
@@ -719,6 +738,12 @@ func (s *Sim) timerNodes() []*Node {
 	var l []*Node
 	for _, n := range s.nodes {
 		if !n.alive || n.starve > 0 {
+			continue
+		}
+		if s.cfg.CleanHunt && s.hunt == nil && s.clockHeld(n) {
+			continue
+		}
+		if s.cfg.CleanHunt && s.huntClockHeld(n) {
 			continue
 		}
 		n.tmu.Lock()
@@ -1017,6 +1042,9 @@ func (s *Sim) asyncStep() {
 		w[aDeliver] = 1000
 		if len(tn) > 0 {
 			w[aTimer] = c.WTimer
+			if c.CleanHunt && held && s.hunt == nil {
+				w[aTimer] = 400 // let the deadlines of the nodes that are not parked yet expire before the slow payload lands
+			}
 		}
 	} else if held {
 		// nothing can be delivered yet, but a slow message is under way: let simulated "network time"
